@@ -255,6 +255,17 @@ fn dec_from_parts(m: i128, s: u32) -> Option<Decimal> {
     Decimal::try_from_i128_with_scale(m, s).ok()
 }
 
+/// The value is computed by the harness's own integer arithmetic (`own`); the library's result `lib` is returned when it
+/// has the same numeric value, so that representation details the properties do not speak about (sign of a zero
+/// result, scale) are the library's. A different numeric value is kept as computed here and shows up as a disagreement.
+fn same_number_or_own(own: Option<Decimal>, lib: Decimal) -> MRes {
+    match own {
+        Some(o) if o == lib => Ok(Value::Decimal(lib)),
+        Some(o) => Ok(Value::Decimal(o)),
+        None => Err(MErr::AnyError),
+    }
+}
+
 fn i64_of(i: i128) -> Option<i64> {
     if i >= i64::MIN as i128 && i <= i64::MAX as i128 {
         Some(i as i64)
@@ -342,7 +353,7 @@ pub fn unary(kind: &str, a: Value) -> MRes {
         ("floor", Value::Float(f)) => Ok(Value::Float(f.floor())),
         ("floor", Value::Decimal(d)) => {
             let q = d.mantissa().div_euclid(pow10(d.scale()));
-            dec_from_parts(q, 0).map(Value::Decimal).ok_or(MErr::AnyError)
+            same_number_or_own(dec_from_parts(q, 0), d.floor())
         }
         ("round", Value::Float(f)) => {
             // half away from zero
@@ -363,12 +374,12 @@ pub fn unary(kind: &str, a: Value) -> MRes {
                 std::cmp::Ordering::Less => false,
             };
             let q = if away { q + if m < 0 { -1 } else { 1 } } else { q };
-            dec_from_parts(q, 0).map(Value::Decimal).ok_or(MErr::AnyError)
+            same_number_or_own(dec_from_parts(q, 0), d.round())
         }
         ("fract", Value::Float(f)) => Ok(Value::Float(f - f.trunc())),
         ("fract", Value::Decimal(d)) => {
             let r = d.mantissa() % pow10(d.scale());
-            dec_from_parts(r, d.scale()).map(Value::Decimal).ok_or(MErr::AnyError)
+            same_number_or_own(dec_from_parts(r, d.scale()), d.fract())
         }
 
         ("year", Value::DateTime(d)) => Ok(Value::Int(d.year() as i128)),
